@@ -211,7 +211,8 @@ TFlushSweep ==
   IN
   /\ Ev.e = "call" /\ Ev.op \in {"flush", "sweep"}
   /\ kv' = newkv
-  /\ flags' = (IF e.op = "flush" /\ S!IsErr(Res(e)) THEN {"res"} ELSE {})
+  \* a flush fails only when it met an injected I/O failure (fault stories mark that call `faulted`)
+  /\ flags' = (IF e.op = "flush" /\ S!IsErr(Res(e)) /\ ~("faulted" \in DOMAIN e /\ e.faulted) THEN {"res"} ELSE {})
               \cup (IF changed # {} /\ ~legal THEN {"other", "c11"} ELSE {})
               \cup (IF e.op = "sweep" /\ e.res.n # Cardinality(changed) THEN {"eff"} ELSE {})
               \cup (IF e.post.mem # S!MemOf(newkv, klen, N) THEN {"mem"} ELSE {})
